@@ -54,7 +54,7 @@ def _nodes(db, chk, m):
         chk.ob(rule, "_create_event_nodes: one path", None, where, found=len(runs))
         return
     r = runs[0]
-    nd = r.env.get("nodes_df")
+    nd = next((v for v in r.env.values() if isinstance(v, Frame) and v.base[0] == "concat" and v.rows == T.TRUE and v.has("idx")), None)
     if not isinstance(nd, Frame) or nd.base[0] != "concat":
         chk.ob(rule, "node frame = concat of the start rows and the end rows", None if not isinstance(nd, Frame) else False, where, found=repr(nd)[:120], accepted="pd.concat([starts, ends])")
         return
@@ -292,18 +292,27 @@ def _sites(db, chk, m):
                 ri = R_def_text(kf, kb["runtime_index"])
                 dn = R.role(kb["kernel_start_node"], kf)
                 det.append((ri, sorted(dn)))
-                okk = okk and ri == "row.index_correlation" and dn == {("START", "eid")} and R_def_text(kf, ast.Name(id="eid")) in ("row.index", "(row.index, row.stream)[0]")
+                rowvar = ri.split(".")[0] if ri.endswith(".index_correlation") and ri.count(".") == 1 else None
+                ev = next(iter(dn))[1] if len(dn) == 1 else None
+                okk = okk and rowvar is not None and len(dn) == 1 and next(iter(dn))[0] == "START" and ev is not None and R_def_text(kf, ast.Name(id=ev)) == f"{rowvar}.index"
             chk.ob(rule, "launch-delay edges: from the START of the launch call linked to the kernel (row.index_correlation) to the START of that same kernel (row.index)", okk, where,
                    found=det, accepted=[("row.index_correlation", [("START", "eid")])], why="another source event makes the launch-delay edge join unrelated events")
         if ty == "KERNEL_KERNEL_DELAY":
-            keys_ok = all("@key stream" in s[1] and "read with key" not in s[1] for s in src) and bool(src)
+            keys_ok = all("@key " in s[1] and "read with key" not in s[1] for s in src) and bool(src)
             chk.ob(rule, "kernel-to-kernel edges: from the END of the previous kernel stored under the SAME stream key", keys_ok, where, found=sorted(src), accepted="last_node[stream] written and read with the row's stream",
                    why="another key joins kernels of different streams")
     # sync source selection
     kf = m.func("CPGraph._construct_graph_from_kernels.handle_cuda_sync")
-    defs = [v for t, v, s in H.assignments(kf) if H.name_id(t) == "gpu_nodes_to_sync"]
-    oksel = len(defs) == 1 and isinstance(defs[0], ast.IfExp) and ast.unparse(defs[0].test).replace(" ", "") == "name==context_sync" and ast.unparse(defs[0].body) == "last_node.values()" \
-        and ast.unparse(defs[0].orelse) == "[last_node.get(row.stream)]"
+    sync_loops = [n for n in ast.walk(kf) if isinstance(n, ast.For) and any(isinstance(c, ast.Call) and isinstance(c.func, ast.Attribute) and c.func.attr == "_add_gpu_cpu_sync_edge" for c in ast.walk(n))]
+    defs = []
+    for lp_ in sync_loops:
+        if isinstance(lp_.iter, ast.Name):
+            defs += [v for t, v, s in H.assignments(kf) if H.name_id(t) == lp_.iter.id]
+        else:
+            defs.append(lp_.iter)
+    oksel = len(defs) == 1 and (H.match("last_node.values() if $n == context_sync else [last_node.get($r.stream)]", defs[0]) is not None or
+                               H.match("[last_node.get($r.stream)] if $n != context_sync else last_node.values()", defs[0]) is not None or
+                               H.match("[last_node.get($r.stream)] if $n == stream_sync else last_node.values()", defs[0]) is not None)
     chk.ob(rule, "sync edges: a Context Sync waits for the last activity of every stream, a Stream Sync only for the last activity of ITS stream", oksel if len(defs) == 1 else None, m.loc(kf),
            found=[ast.unparse(d) for d in defs], accepted="last_node.values() if name == context_sync else [last_node.get(row.stream)]",
            why="falling back to all streams makes a sync edge leave a kernel the call never waited for (possibly backward in time)")
